@@ -19,7 +19,8 @@ EXPLANATION = (
     "list shared with a wrapped canvas - 'the operand canvases are left unchanged'; (3) coordinates travel with content: in trim, pad_trim_left_right, pad_trim_top_bottom, overlay, "
     "CanvasCombine, CanvasJoin and CanvasOverlay the cursor/pop-up coordinates are translated by exactly the offset at which the content is placed - (0, -top), (left, 0), (0, top) "
     "together with the prepended shard, other.translate_coords(left, top), and the running row/column offset that is also recorded for the child and then advanced by that same canvas's "
-    "rows()/cols(); (4) DIM inside canvas.py; (5) CUTATTR: the space that replaces a double-width character cut by a trim takes its attribute from the character just outside the kept "
+    "rows()/cols(); (4) DIM inside canvas.py; (6) the delta generators (content_delta) cannot leak StopIteration and their two running cursors advance only by their own stream's extents; (7) attribute remaps compose with "
+    ".get(k, default) - a remap to None (a falsy but legitimate attribute) is not lost; (5) CUTATTR: the space that replaces a double-width character cut by a trim takes its attribute from the character just outside the kept "
     "range on that side (spos - 1 on the left, epos on the right), never from a kept neighbour."
 )
 NOT_DECIDED = "Cell-for-cell equality with the grid model, the width arithmetic of cutting wide characters, content_delta round trip - statements about values of the shard algebra."
@@ -151,6 +152,56 @@ def rule_cut_attr(ctx: Ctx) -> RuleResult:
     return rr
 
 
+def rule_delta(ctx: Ctx) -> RuleResult:
+    """The delta generators walk the old canvas with an iterator next to the new one."""
+    p = ctx.p
+    rr = RuleResult("GENSTOP", "C02.6", "the delta generators never let StopIteration escape (next() with a default or handled), and each running cursor advances only by the extent of its own stream's element", floor=4)
+    for q, pairs in ((f"{CV}.shards_delta", (("done", "num_rows"), ("other_done", "other_num_rows"))), (f"{CV}.shard_cviews_delta", (("cols", "cv[2]"), ("other_cols", "other_cv[2]")))):
+        fi = p.func(q)
+        if not any(isinstance(n, (ast.Yield, ast.YieldFrom)) for n in fi.own_nodes()):
+            raise AnalysisError(f"{q} is no longer a generator")
+        handled = set()
+        for t in ast.walk(fi.node):
+            if isinstance(t, ast.Try) and any(h.type is None or "StopIteration" in ast.unparse(h.type) or "Exception" in ast.unparse(h.type) for h in t.handlers):
+                for b in t.body:
+                    handled |= {id(x) for x in ast.walk(b)}
+        for c in fi.own_nodes():
+            if isinstance(c, ast.Call) and isinstance(c.func, ast.Name) and c.func.id == "next":
+                rr.inst(f"{short(fi)}:{norm(c, 40)}@{c.lineno - fi.node.lineno}", True, {"function": short(fi), "call": norm(c, 50), "has_default": len(c.args) > 1})
+                if len(c.args) < 2 and id(c) not in handled:
+                    rr.add(finding("GENSTOP", fi, c, f"`{norm(c, 40)}` inside the generator {fi.name}() has no default: when the old canvas runs out of shards / cviews first, StopIteration becomes RuntimeError('generator raised StopIteration') out of content_delta()", construct=f"bare {norm(c, 40)} in generator"))
+        for counter, elem in pairs:
+            for n in fi.own_nodes():
+                tgt = None
+                if isinstance(n, ast.AugAssign) and isinstance(n.target, ast.Name) and n.target.id == counter:
+                    tgt = n
+                    ok = isinstance(n.op, ast.Add) and ast.unparse(n.value) == elem
+                elif isinstance(n, ast.Assign) and any(isinstance(t, ast.Name) and t.id == counter for t in n.targets):
+                    tgt = n
+                    ok = isinstance(n.value, ast.Constant) and n.value.value == 0
+                if tgt is None:
+                    continue
+                rr.inst(f"{short(fi)}:{norm(n, 40)}", True)
+                if not ok:
+                    rr.add(finding("GENSTOP", fi, n, f"`{norm(n, 50)}`: the cursor `{counter}` may only start at 0 and advance by `{elem}` (the extent of its own stream's current element); any other update lets the two cursors drift, and a re-used canvas at a different position is reported as unchanged", construct=f"cursor {counter} updated by {norm(n, 40)}"))
+    return rr
+
+
+def rule_get_or(ctx: Ctx) -> RuleResult:
+    """Attribute values may be falsy (None is the default attribute, '' and 0 are hashable names): a mapping lookup
+    with a fallback must be `.get(k, default)`, never `.get(k) or default`."""
+    p = ctx.p
+    rr = RuleResult("TRUTHY", "C02.7", "attribute mappings are looked up with .get(k, default), never `.get(k) or default` (None is a legitimate attribute)", floor=1)
+    for q in (f"{CV}.CompositeCanvas.fill_attr_apply", "urwid.widget.attr_map.AttrMap.render", "urwid.widget.attr_map.AttrMap.set_attr_map", "urwid.widget.attr_map.AttrMap.set_focus_map"):
+        fi = p.func(q)
+        gets = [c for c in fi.own_nodes() if isinstance(c, ast.Call) and isinstance(c.func, ast.Attribute) and c.func.attr == "get"]
+        rr.inst(short(fi), True, {"function": short(fi), "lookups": [norm(g, 40) for g in gets]} if len(rr.samples) < 4 else None)
+        for n in fi.own_nodes():
+            if isinstance(n, ast.BoolOp) and isinstance(n.op, ast.Or) and isinstance(n.values[0], ast.Call) and isinstance(n.values[0].func, ast.Attribute) and n.values[0].func.attr == "get" and len(n.values[0].args) == 1:
+                rr.add(finding("TRUTHY", fi, n, f"`{norm(n, 60)}` falls back whenever the mapped attribute is falsy; mapping an attribute to None (back to the default) is legitimate, so the outer mapping's target is dropped and the inner attribute shows through", construct=f".get() or default: {norm(n, 60)}"))
+    return rr
+
+
 def run(ctx: Ctx):
     p = ctx.p
     return [
@@ -160,6 +211,8 @@ def run(ctx: Ctx):
         rule_coords(ctx),
         dim.run_dim(p, "C02.4", [CV], floor=20, exceptions={}, description="no cols/rows confusion inside canvas.py"),
         rule_cut_attr(ctx),
+        rule_delta(ctx),
+        rule_get_or(ctx),
     ]
 
 
@@ -174,5 +227,8 @@ MUTANTS = [
     Mut("overlay-unguarded", _C, "CompositeCanvas.overlay", "        if self.widget_info:\n            raise self._finalized_error\n", "", "GUARD|"),
     Mut("pad-right-shared-cviews", _C, "CompositeCanvas.pad_trim_left_right", "new_top_cviews = top_cviews.copy()", "new_top_cviews = top_cviews", "FRESHLIST|canvas.CompositeCanvas.pad_trim_left_right"),
     Mut("cut-attr-from-kept-neighbour", "urwid/util.py", "trim_text_attr_cs", "al = rle_get_at(attr, spos - 1)", "al = rle_get_at(attr, spos)", "PAIR|util.trim_text_attr_cs"),
+    Mut("delta-bare-next", _C, "shard_cviews_delta", "other_cv = next(other_cviews_iter, None)\n        while", "other_cv = next(other_cviews_iter)\n        while", "GENSTOP|canvas.shard_cviews_delta"),
+    Mut("delta-cursor-resync", _C, "shard_cviews_delta", "        other_cols += other_cv[2]\n        other_cv = None", "        other_cols = cols\n        other_cv = None", "GENSTOP|canvas.shard_cviews_delta"),
+    Mut("attr-remap-get-or", _C, "CompositeCanvas.fill_attr_apply", "mapping.get(v, v)", "mapping.get(v) or v", "TRUTHY|canvas.CompositeCanvas.fill_attr_apply"),
     Mut("twin-trim-coords-regrouped", _C, "CompositeCanvas.trim", "self.coords = self.translate_coords(0, -top)", "self.coords = self.translate_coords(0, 0 - top)", twin=True),
 ]
